@@ -97,6 +97,46 @@ BINARY_OPERATORS = frozenset(
 )
 
 
+def _logical_str(
+    expression: Expression, parent_precedence: int, *, left: bool = False
+) -> str:
+    # `and`, `or` and `not` group from the right when parsed, so a logical
+    # expression that is a left operand always needs parentheses.
+    if isinstance(expression, LogicalAndExpression):
+        precedence = PRECEDENCE_LOGICAL_AND
+        op = "and"
+        left_str = _logical_str(expression.left, precedence, left=True)
+        right_str = _logical_str(expression.right, precedence)
+    elif isinstance(expression, LogicalOrExpression):
+        precedence = PRECEDENCE_LOGICAL_OR
+        op = "or"
+        left_str = _logical_str(expression.left, precedence, left=True)
+        right_str = _logical_str(expression.right, precedence)
+    elif isinstance(expression, LogicalNotExpression):
+        operand_str = _logical_str(expression.right, PRECEDENCE_PREFIX)
+        expr = f"not {operand_str}"
+        if left or parent_precedence > PRECEDENCE_PREFIX:
+            return f"({expr})"
+        return expr
+    else:
+        return str(expression)
+
+    expr = f"{left_str} {op} {right_str}"
+    if left or precedence < parent_precedence:
+        return f"({expr})"
+    return expr
+
+
+def _operand_str(expression: Expression) -> str:
+    """Return _expression_ as an operand of a comparison or membership operator.
+
+    A logical or infix expression can only be an operand if it was parenthesized.
+    """
+    if isinstance(expression, _GROUPED_OPERANDS):
+        return f"({_logical_str(expression, 0)})"
+    return str(expression)
+
+
 class BooleanExpression(Expression):
     """An expression that evaluates to true or false."""
 
@@ -112,36 +152,7 @@ class BooleanExpression(Expression):
         )
 
     def __str__(self) -> str:
-        def _str(
-            expression: Expression, parent_precedence: int, *, left: bool = False
-        ) -> str:
-            # `and`, `or` and `not` group from the right when parsed, so a logical
-            # expression that is a left operand always needs parentheses.
-            if isinstance(expression, LogicalAndExpression):
-                precedence = PRECEDENCE_LOGICAL_AND
-                op = "and"
-                left_str = _str(expression.left, precedence, left=True)
-                right_str = _str(expression.right, precedence)
-            elif isinstance(expression, LogicalOrExpression):
-                precedence = PRECEDENCE_LOGICAL_OR
-                op = "or"
-                left_str = _str(expression.left, precedence, left=True)
-                right_str = _str(expression.right, precedence)
-            elif isinstance(expression, LogicalNotExpression):
-                operand_str = _str(expression.right, PRECEDENCE_PREFIX)
-                expr = f"not {operand_str}"
-                if left or parent_precedence > PRECEDENCE_PREFIX:
-                    return f"({expr})"
-                return expr
-            else:
-                return str(expression)
-
-            expr = f"{left_str} {op} {right_str}"
-            if left or precedence < parent_precedence:
-                return f"({expr})"
-            return expr
-
-        return _str(self.expression, 0)
+        return _logical_str(self.expression, 0)
 
     def evaluate(self, context: RenderContext) -> bool:
         return is_truthy(self.expression.evaluate(context))
@@ -261,7 +272,7 @@ class EqExpression(Expression):
         self.right = right
 
     def __str__(self) -> str:
-        return f"{self.left} == {self.right}"
+        return f"{_operand_str(self.left)} == {_operand_str(self.right)}"
 
     def evaluate(self, context: RenderContext) -> object:
         return _eq(self.left.evaluate(context), self.right.evaluate(context))
@@ -285,7 +296,7 @@ class NeExpression(Expression):
         self.right = right
 
     def __str__(self) -> str:
-        return f"{self.left} != {self.right}"
+        return f"{_operand_str(self.left)} != {_operand_str(self.right)}"
 
     def evaluate(self, context: RenderContext) -> object:
         return not _eq(self.left.evaluate(context), self.right.evaluate(context))
@@ -309,7 +320,7 @@ class LeExpression(Expression):
         self.right = right
 
     def __str__(self) -> str:
-        return f"{self.left} <= {self.right}"
+        return f"{_operand_str(self.left)} <= {_operand_str(self.right)}"
 
     def evaluate(self, context: RenderContext) -> object:
         left = self.left.evaluate(context)
@@ -334,7 +345,7 @@ class GeExpression(Expression):
         self.right = right
 
     def __str__(self) -> str:
-        return f"{self.left} >= {self.right}"
+        return f"{_operand_str(self.left)} >= {_operand_str(self.right)}"
 
     def evaluate(self, context: RenderContext) -> object:
         left = self.left.evaluate(context)
@@ -359,7 +370,7 @@ class LtExpression(Expression):
         self.right = right
 
     def __str__(self) -> str:
-        return f"{self.left} < {self.right}"
+        return f"{_operand_str(self.left)} < {_operand_str(self.right)}"
 
     def evaluate(self, context: RenderContext) -> object:
         return _lt(
@@ -386,7 +397,7 @@ class GtExpression(Expression):
         self.right = right
 
     def __str__(self) -> str:
-        return f"{self.left} > {self.right}"
+        return f"{_operand_str(self.left)} > {_operand_str(self.right)}"
 
     def evaluate(self, context: RenderContext) -> object:
         return _lt(
@@ -413,7 +424,7 @@ class ContainsExpression(Expression):
         self.right = right
 
     def __str__(self) -> str:
-        return f"{self.left} contains {self.right}"
+        return f"{_operand_str(self.left)} contains {_operand_str(self.right)}"
 
     def evaluate(self, context: RenderContext) -> object:
         return _contains(
@@ -653,3 +664,17 @@ def _contains(token: Token, left: object, right: object) -> bool:
         f"and '{right.__class__.__name__}'",
         token=token,
     )
+
+
+_GROUPED_OPERANDS = (
+    LogicalNotExpression,
+    LogicalAndExpression,
+    LogicalOrExpression,
+    EqExpression,
+    NeExpression,
+    LeExpression,
+    GeExpression,
+    LtExpression,
+    GtExpression,
+    ContainsExpression,
+)
